@@ -25,6 +25,12 @@ import (
 	"rcproxy/core/pkg/utils"
 )
 
+// the limits redis itself puts on a request
+const (
+	maxReqArgs    = 1024 * 1024
+	maxReqBulkLen = 512 * 1024 * 1024
+)
+
 type CRespCodec struct {
 	MsgMaxLength int
 }
@@ -50,7 +56,7 @@ func (rc *CRespCodec) Decode(c CConn) (*Msg, error) {
 	var n int
 	switch line[0] {
 	case '*':
-		n, err = parseLen(line[1:])
+		n, err = parseReqLen(line[1:], maxReqArgs)
 		if n < 1 || err != nil {
 			logging.Warnf("[%dm][%dc] unexpect resp, buf: %s", msgId, c.Fd(), utils.FormatRedisRESPMessages(buf.PeekAll()))
 			return nil, codec.ErrInvalidResp
@@ -283,8 +289,8 @@ func (rc *CRespCodec) parseLine(buf *codec.Buffer) ([]byte, error) {
 	}
 	switch line[0] {
 	case '$':
-		n, err := parseLen(line[1:])
-		if n < 0 || err != nil {
+		n, err := parseReqLen(line[1:], maxReqBulkLen)
+		if err != nil {
 			return nil, codec.ErrInvalidResp
 		}
 		b, err := buf.ReadN(n)
